@@ -14,6 +14,7 @@ import (
 	"io"
 	"net/http"
 	"net/url"
+	"os"
 	"sort"
 	"strconv"
 	"strings"
@@ -21,6 +22,7 @@ import (
 	"github.com/getkin/kin-openapi/openapi3"
 	"github.com/getkin/kin-openapi/openapi3filter"
 	"github.com/getkin/kin-openapi/routers"
+	"github.com/oasdiff/yaml"
 
 	"kinverif/internal/hx"
 )
@@ -32,8 +34,9 @@ func init() {
 			"(none, empty requirement, undeclared scheme, one/two schemes, alternatives) × all 16 (reads body, verdict) vectors of two callbacks × missing callback × skip-defaults × multi-error; " +
 			"(B) one parameter: 3 locations × 5 schema types × 4 defaults × 6 presences × 3 explode settings × required × skip-defaults, plus pairs; " +
 			"(C) body schemas from a grammar (objects with defaulted / nullable / readOnly / required properties, nested objects, arrays of objects, allOf/oneOf/anyOf over a branch pool) × a pool of bodies; " +
-			"(D) 14 Content-Type headers (parameters, case, +json family, text/plain, unknown, empty) × 9 declared content sets (exact, with parameters, wildcards, several, none, schema-less) × 5 bodies; " +
+			"(D) 18 Content-Type headers (parameters, case, +json family, YAML, text/plain, unknown, empty) × 11 declared content sets (exact, with parameters, wildcards, several, none, schema-less, YAML) × 5 bodies; " +
 			"(E) path-item parameters × 6 kinds of operation-level redeclaration × presence × ExcludeRequestQueryParams; (F) parameter schemas whose type and default sit inside allOf; (G) parameters described by content; " +
+			"(H) a property present with the value null: 2 types × nullable × default × readOnly × required × 5 bodies × top level / nested / array item / anyOf, oneOf, allOf branch × options; " +
 			"every block is additionally run with Content-Type parameters and with document-level security in turn; " +
 			"then a seeded random stream combining random schemas (depth ≤ 3, structured defaults), schema-directed values, random path-item and operation parameters, media types and security. " +
 			"A case is non-trivial when the model reports at least one non-default branch.",
@@ -47,9 +50,10 @@ func init() {
 			"the second validation uses a fresh RequestValidationInput (or, with reuseInput, the very same one) on the same *http.Request, after the 'next handler' has read the body and a reader over the same bytes has been put back",
 			"numbers in bodies, defaults and parameters are integers; strings are short alphanumeric words (text↔number conversion, JSON encoding and cookie/query escaping are trusted)",
 			"defaults are scalars or arrays of scalars (an object default is inserted by reference and would be mutated inside the shared document: that is C15's subject)",
-			"ContentLength is compared only when the incoming value was known (≥ 0); an unchanged body that is re-encoded compares equal as JSON",
+			"ContentLength is compared only when the incoming value was known (≥ 0); a re-encoded body is compared as a JSON value, and whether it was re-encoded at all is compared too",
 			"authentication callbacks either leave the body alone or read it to the end",
-			"media types other than application/json are generated only with composition-free schemas (whether a default set inside a discarded oneOf/anyOf candidate triggers the re-encoding is not modelled; only application/json tolerates an unnecessary re-encoding)",
+			"the property lists of object schemas are sorted by name (they are keys of a Go map, visited in sorted order); bodies are JSON objects whose keys the model sees sorted",
+			"under a YAML media type only JSON texts are sent (the YAML decoder reads a JSON text as the same value: trusted); a re-encoded YAML body is compared as a value",
 			"parameters described by content have scalar schemas and the single media type application/json",
 		},
 	})
@@ -413,6 +417,9 @@ func runC13(c0 hx.Case) any {
 				obs["body"] = "new"
 				if cj, ok := canonJSON(b); ok {
 					obs["json"] = cj
+				} else if jb, yerr := yaml.YAMLToJSON(b); yerr == nil && strings.Contains(jstr(c, "ctype"), "yaml") {
+					cj, _ := canonJSON(jb) // a YAML body that was re-encoded as YAML: compared as a value
+					obs["json"] = cj
 				} else {
 					obs["json"] = "not-json:" + string(b)
 				}
@@ -558,10 +565,7 @@ func cmpC13(c0 hx.Case, impl any, reply map[string]any) hx.Verdict {
 		}
 		ib, mb := jstr(io_, "body"), jstr(mo, "body")
 		if ib != mb {
-			// an unchanged body that was re-encoded (defaults were set only inside a discarded copy) is the same value
-			if !(ib == "new" && mb == "orig" && !skip && origIsJSON && bodyVal(io_) == origCanon) {
-				imDiff = append(imDiff, fmt.Sprintf("%s body: impl %s %v model %s", pn, ib, io_["json"], mb))
-			}
+			imDiff = append(imDiff, fmt.Sprintf("%s body: impl %s %v model %s", pn, ib, io_["json"], mb))
 		} else if ib == "new" && bodyVal(io_) != modelVal(mo) {
 			imDiff = append(imDiff, fmt.Sprintf("%s forwarded body: impl %s model %s", pn, bodyVal(io_), modelVal(mo)))
 		}
@@ -616,6 +620,8 @@ func cmpC13(c0 hx.Case, impl any, reply map[string]any) hx.Verdict {
 				case "value":
 					if want := c13ValText(spec["body"]); bodyVal(p1) != want {
 						isDiff = append(isDiff, fmt.Sprintf("forwarded body %s, expected (defaults for absent properties only) %s", bodyVal(p1), want))
+					} else if want == origCanon && jstr(p1, "body") == "new" {
+						isDiff = append(isDiff, "no default applies, yet the body was re-encoded: the forwarded bytes are not the ones received")
 					}
 				case "reject":
 					isDiff = append(isDiff, "accepted, but the body does not validate when only ABSENT properties receive defaults; forwarded "+bodyVal(p1))
@@ -647,6 +653,13 @@ func cmpC13(c0 hx.Case, impl any, reply map[string]any) hx.Verdict {
 	if len(imDiff) > 0 {
 		v.IM = false
 		v.Detail = "impl≠model: " + strings.Join(imDiff, "; ")
+		if f := os.Getenv("C13_DEBUG"); f != "" { // development aid: every model/implementation disagreement, also inside known classes
+			if fh, err := os.OpenFile(f, os.O_APPEND|os.O_CREATE|os.O_WRONLY, 0o644); err == nil {
+				b, _ := json.Marshal(map[string]any{"case": c, "detail": v.Detail, "excl": reply["excl"]})
+				fh.Write(append(b, '\n'))
+				fh.Close()
+			}
+		}
 	}
 	if len(isDiff) > 0 {
 		v.IS = false
